@@ -206,7 +206,11 @@ def r093(prog, chk):
     need(len(alls) == 1, f"cannot interpret {t.short}")
     ge = alls[0].args[0]
     elt = ge.elt
-    parts = {T(v) for v in elt.values} if isinstance(elt, ast.BoolOp) and isinstance(elt.op, ast.And) else set()
+    def part_text(v_):
+        if isinstance(v_, ast.Compare) and len(v_.ops) == 1 and isinstance(v_.ops[0], ast.Eq):
+            return " == ".join(sorted([T(v_.left), T(v_.comparators[0])]))
+        return T(v_)
+    parts = {part_text(v) for v in elt.values} if isinstance(elt, ast.BoolOp) and isinstance(elt.op, ast.And) else set()
     v = A.target_names(ge.generators[0].target)[0]
     ref = None
     for p_ in parts:
@@ -214,7 +218,7 @@ def r093(prog, chk):
             ref = p_.split(" is ", 1)[1]
     first = [s for s in A.stmts_of(t.node) if isinstance(s, ast.Assign) and isinstance(s.value, ast.Call) and A.callee_name(s.value) == "next"]
     fname = first[0].targets[0].id if first else None
-    ok = ref is not None and fname is not None and f"{v}.options == {fname}.options" in parts and f"{v}.pre == {fname}.pre" in parts
+    ok = ref is not None and fname is not None and " == ".join(sorted([f"{v}.options", f"{fname}.options"])) in parts and " == ".join(sorted([f"{v}.pre", f"{fname}.pre"])) in parts
     chk.ob("R09.3", f"{t.short}|merge only when class, options and pre agree", ok, where(t, alls[0]), detail=T(elt, 120),
            message=f"{t.short}: filters of different masters are merged although their class / options / pre can differ")
     def disagree(g):
